@@ -494,9 +494,24 @@ class DataFrameSchemaBackend(PandasSchemaBackend):
         # series is relatively slow due to copying the index for
         # each one. Coerce dtypes afterwards instead.
         for c in missing_obj.columns:
-            missing_obj[c] = missing_cols_schema[c].dtype.try_coerce(
-                missing_obj[c]
-            )
+            col_schema = missing_cols_schema[c]
+            if col_schema.dtype is None:
+                continue
+            try:
+                missing_obj[c] = col_schema.dtype.try_coerce(missing_obj[c])
+            except ParserError as exc:
+                raise SchemaError(
+                    schema=col_schema,
+                    data=missing_obj[c],
+                    reason_code=SchemaErrorReason.DATATYPE_COERCION,
+                    message=(
+                        f"Error while coercing added missing column '{c}' "
+                        f"to type {col_schema.dtype}: {exc}\n"
+                        f"{exc.failure_cases}"
+                    ),
+                    failure_cases=exc.failure_cases,
+                    check=f"coerce_dtype('{col_schema.dtype}')",
+                ) from exc
 
         return missing_obj
 
